@@ -66,4 +66,44 @@ func init() {
 	}
 	Props["C03"].Engines = append(Props["C03"].Engines, &concEngine{opts: c03})
 	Props["C03"].Conc = c03
+	// C06 with expiry and a moving clock: operations sample the clock when they start, other tasks
+	// advance it meanwhile (reads near a deadline race with writes and sweeps).
+	c06exp := &ConcOpts{
+		Profile: Profile{Prop: "C06", ForceExp: true, NoRef: true, Keys: [2]int{1, 5}},
+		OpW:     zeroExcept(map[string]int{"set": 24, "setifabsent": 6, "get": 12, "compute": 5, "computeifabsent": 3, "computeifpresent": 3, "invalidate": 5, "advance": 14, "cleanup": 5, "load": 3, "setexpires": 2}),
+		Tasks:   [2]int{2, 4}, OpsPer: [2]int{4, 20}, Prefill: [2]int{0, 4},
+		Executors:  []string{"default", "queued", "sync"},
+		NonTrivial: func(o *ConcOutcome) bool { return o.Switches > 4 && o.Probes["atomic-events:Expiration"] > 0 },
+	}
+	Props["C06"].Engines = append(Props["C06"].Engines, &concEngine{opts: c06exp})
+	// C05 / C04 / C14 with expiry and a moving clock: the timer wheel, reads that move deadlines and
+	// writers race; the audit then compares table, eviction policy and wheel.
+	expOps := zeroExcept(map[string]int{"set": 22, "setifabsent": 6, "get": 12, "getentry": 2, "compute": 5, "computeifabsent": 3, "computeifpresent": 3,
+		"invalidate": 5, "advance": 12, "cleanup": 4, "load": 3, "setexpires": 3, "setmax": 1, "invalidateall": 1, "hottest": 1, "coldest": 1, "bulkget": 1})
+	c05exp := &ConcOpts{
+		Profile: Profile{Prop: "C05", ForceExp: true, NoRef: true, Keys: [2]int{2, 10}},
+		OpW:     expOps, Tasks: [2]int{2, 4}, OpsPer: [2]int{4, 22}, Prefill: [2]int{0, 6},
+		Executors:  []string{"default", "queued", "sync"},
+		NonTrivial: func(o *ConcOutcome) bool { return o.Switches > 4 && o.Probes["atomic-events:Expiration"] > 0 },
+	}
+	Props["C05"].Engines = append(Props["C05"].Engines, &concEngine{opts: c05exp})
+	c04exp := &ConcOpts{
+		Profile: Profile{Prop: "C04", ForceExp: true, BoundOnly: true, NoRef: true, Keys: [2]int{3, 12}},
+		OpW:     expOps, Tasks: [2]int{2, 4}, OpsPer: [2]int{4, 22}, Prefill: [2]int{0, 8},
+		Executors:  []string{"default", "queued", "sync"},
+		NonTrivial: func(o *ConcOutcome) bool { return o.Switches > 4 && o.Probes["bounded"] > 0 && o.Probes["atomic-events"] > 0 },
+	}
+	Props["C04"].Engines = append(Props["C04"].Engines, &concEngine{opts: c04exp})
+	c14ops := map[string]int{}
+	for k, v := range expOps {
+		c14ops[k] = v
+	}
+	c14ops["cleanup"] = 0
+	c14exp := &ConcOpts{
+		Profile: Profile{Prop: "C14", ForceExp: true, NoRef: true, Keys: [2]int{2, 12}},
+		OpW:     c14ops, Tasks: [2]int{2, 5}, OpsPer: [2]int{4, 24}, Prefill: [2]int{0, 6},
+		Executors: []string{"default"}, NoCleanup: true,
+		NonTrivial: func(o *ConcOutcome) bool { return o.Switches > 4 && o.Probes["maintenance-configured"] > 0 },
+	}
+	Props["C14"].Engines = append(Props["C14"].Engines, &concEngine{opts: c14exp})
 }
